@@ -267,14 +267,28 @@ namespace vh {
         _exit(3);
     }
 
-    void install_crash_handlers()
+    // every simulated thread gets its own alternate signal stack: a task that overflows its (small)
+    // coroutine stack must still be able to report the crash
+    static char g_altstacks[64][1 << 15];
+    static int g_next_altstack = 1;
+    static void thread_altstack()
     {
-        static char altstack[1 << 16];
+        if (g_next_altstack >= 64) return;
         stack_t ss;
-        ss.ss_sp = altstack;
-        ss.ss_size = sizeof(altstack);
+        ss.ss_sp = g_altstacks[g_next_altstack++];
+        ss.ss_size = sizeof(g_altstacks[0]);
         ss.ss_flags = 0;
         sigaltstack(&ss, nullptr);
+    }
+
+    void install_crash_handlers()
+    {
+        stack_t ss;
+        ss.ss_sp = g_altstacks[0];
+        ss.ss_size = sizeof(g_altstacks[0]);
+        ss.ss_flags = 0;
+        sigaltstack(&ss, nullptr);
+        sim_set_thread_start_hook(thread_altstack);
         struct sigaction sa;
         memset(&sa, 0, sizeof(sa));
         sa.sa_sigaction = on_signal;
